@@ -95,3 +95,9 @@ def c10_nonfinite_floats() -> bool:
     strict JSON.  The specification wants a field error; the library turns serialisation failures into RuntimeError
     (a crash of the whole request, by design and pinned by tests), so a contained repair is not a small patch."""
     return ENABLED
+
+
+def c11_accepted_invalid(label) -> bool:
+    """KF C11-extend-unknown-ignored: build_schema applies extensions in non-strict mode, which (documented on
+    extend_schema) silently ignores an extension of a type that is not defined anywhere."""
+    return ENABLED and label == "extend-unknown"
